@@ -2261,20 +2261,18 @@ impl Server {
 
     fn remove_backend(&mut self, req_id: &str, backend: &RemoveBackend) -> WorkerResponse {
         let address = backend.address.into();
-        // Runtime removal is address-keyed and drops every backend at this
-        // address (A/B test, weighted variant, dedup race). The metrics
-        // layer is id-keyed — fan out one `remove_backend` per actually-
-        // removed id so the two identities stay in sync. Without this the
-        // `backend_id` field on the IPC message could name "A" while the
-        // runtime dropped both "A" and "B" at the same address, leaving
-        // "B"'s metrics rows orphaned forever.
-        let removed_ids = self
-            .backends
-            .borrow_mut()
-            .remove_backend(&backend.cluster_id, &address);
+        // Runtime removal uses the same `(backend_id, address)` key as
+        // `ConfigState`, so the worker keeps routing to another backend
+        // registered at the same address under a different id. The ids
+        // actually dropped drive the id-keyed metrics teardown below.
+        let removed_ids = self.backends.borrow_mut().remove_backend(
+            &backend.cluster_id,
+            &backend.backend_id,
+            &address,
+        );
         if removed_ids.is_empty() {
-            // Edge case: BackendList returned nothing (address never
-            // existed in this cluster). Honour the request's stated id
+            // Edge case: BackendList returned nothing (no such backend
+            // in this cluster). Honour the request's stated id
             // anyway so a no-op request still tidies any orphan metric
             // row from a prior identity-drift state.
             METRICS.with(|metrics| {
